@@ -269,7 +269,7 @@ func runC07_2(c *core.Ctx) {
 				p := &flow.Problem{Must: true}
 				p.Node = func(b *flow.Block, i int, n ast.Node, in uint64) uint64 {
 					for _, cl := range flow.Calls(n) {
-						if cf := flow.CalleeFunc(f.Info, cl); cf != nil && cf.Name() == "Wait" && cf.Pkg() != nil && strings.HasSuffix(cf.Pkg().Path(), "errgroup") {
+						if cf := flow.CalleeFunc(f.Info, cl); cf != nil && nameOf(cf) == "Wait" && cf.Pkg() != nil && strings.HasSuffix(cf.Pkg().Path(), "errgroup") {
 							in |= fWaited
 						}
 					}
@@ -461,7 +461,7 @@ func runC07_6(c *core.Ctx) {
 	}
 	var onceLit *ast.FuncLit
 	for _, call := range callsIn(lf.Decl.Body, false) {
-		if cf := flow.CalleeFunc(lf.Info, call); cf != nil && cf.Name() == "Do" && cf.Pkg() != nil && cf.Pkg().Path() == "sync" && len(call.Args) == 1 {
+		if cf := flow.CalleeFunc(lf.Info, call); cf != nil && nameOf(cf) == "Do" && cf.Pkg() != nil && cf.Pkg().Path() == "sync" && len(call.Args) == 1 {
 			onceLit, _ = ast.Unparen(call.Args[0]).(*ast.FuncLit)
 		}
 	}
